@@ -31,6 +31,12 @@ func routeCheck(r *core.Run, prop string) int {
 		n = 900
 	}
 	cases := specgen.RouterCases(r.Seed, n)
+	if r.Thorough() {
+		// exhaustive: every set of <= 3 templates of depth <= 2 over the segment alphabet
+		cases = append(cases, specgen.RouterExhaustive(3)...)
+	} else {
+		cases = append(cases, specgen.RouterExhaustive(2)...)
+	}
 	mwFor := func(c specgen.Case) map[string]any {
 		// middleware stack length 0..4 by case
 		h := 0
@@ -76,6 +82,7 @@ func routeCheck(r *core.Run, prop string) int {
 		"not_generated":       s.NotGen,
 		"not_runnable":        s.NotRunnable,
 		"event_counts":        s.Stats,
+		"exhaustive_part":     "all sets of <= 2 (quick) / <= 3 (thorough) non-equivalent templates of depth <= 2 over {a, b, {var}, empty-last}",
 	}
 	return r.Finish(cov, []string{"requests are what net/http hands to a handler (URL.Path decoded); request paths of depth <= 5 over {a,b,zz,7,empty} beneath every base form, plus near misses and typed lexemes", "reference matcher drv/refroute.go written from the property text"})
 }
